@@ -219,3 +219,22 @@ CHECKS["C10"] = dict(
     technique="exhaustive enumeration of (shape, cell, kind, value, background) plus explicit-state closure of small matrices",
     assumptions=["rows > 0 with more than 2^17 cells are not addressable in memory and are covered only through row 0"],
 )
+
+CHECKS["C07"] = dict(
+    name="floatc", harness=["checks/floatc.c", "engine/vmalloc.c"], wrap_malloc=True,
+    libs=["varintFloat.c", "varintExternal.c"],
+    configs={"quick": ["pinned", "debug"], "thorough": ["pinned", "debug", "asan"]},
+    shards={"pinned": 16, "debug": 16, "asan": 16},
+    deadline={"quick": 150, "thorough": 1500},
+    rule="double alphabet D = {sign} x {20 biased exponents incl. 0, 1, 1022-1024, 2046, 2047} x {~200 mantissas: 0, 1, all-ones, "
+         "top-k-ones, top-k-ones-zero-ones, half-way patterns +-1 around the rounding position of each precision, patterns that "
+         "carry out of the mantissa}; arrays: all singletons, all ordered pairs over a 60/150-value sub-alphabet, all triples over "
+         "12/24 values, stride windows of length 9/17/64; x 4 precisions x 3 exponent modes; EncodeAuto: 30 requested errors "
+         "(just below / at / above every mode bound and threshold) x singletons and pairs; class = (array shape, exponent class / "
+         "exponent distance class / requested error)",
+    explanation="E-enum with an exact integer oracle: FULL and special values bit-identical; reduced precision |dec-x| <= 2^-m |x| "
+                "evaluated in 128-bit integers on the decomposed IEEE fields (infinity tolerated only when x rounds above DBL_MAX); "
+                "EncodeAuto error <= requested error decomposed the same way; decoder consumes exactly the encoder's bytes from an "
+                "exact-size guard copy; length <= varintFloatMaxEncodedSize",
+    assumptions=["arrays longer than 64 doubles are not enumerated"],
+)
